@@ -221,6 +221,65 @@ func c16gridRing(idx uint64) []P {
 	return []P{gp(idx / 46656), gp((idx / 1296) % 36), gp((idx / 36) % 36), gp(idx % 36)}
 }
 
+const c16fixedBase = uint64(1) << 40
+
+// c16fixedCase runs case idx of the fixed list (generated from idx alone, independent of VERIF_SEED).
+func c16fixedCase(c *h.Ctx, idx uint64, dump map[uint64]bool) {
+	r := h.NewRand(h.Mix(0xC16C0FFEE, idx))
+	ring := gen.SimpleRing(r, r.Range(5, 9), float64(r.Range(3, 9)), float64(r.Range(3, 9)), 2, 8, 1)
+	if ring == nil {
+		return
+	}
+	o := orb.CCW
+	if r.Bool() {
+		o = orb.CW
+		gen.Reverse(ring)
+	}
+	if r.Bool() { // start at another vertex
+		k := r.Intn(len(ring) - 1)
+		open := append(append([]P{}, ring[k:len(ring)-1]...), ring[:k]...)
+		ring = append(open, open[0])
+	}
+	x0, y0 := float64(r.Range(0, 8)), float64(r.Range(0, 8))
+	box := [4]float64{x0, y0, x0 + float64(r.Range(1, 8)), y0 + float64(r.Range(1, 8))}
+	if !c16contact(box, ring) || !crossesOpenBox(box, ring) {
+		return
+	}
+	id := c16fixedBase + idx
+	out, pv, stack := c16runRing(box, ring, o)
+	c.Eval()
+	c.Count("fixed_list_contact_cases", 1)
+	var msg string
+	var det interface{}
+	if pv != nil {
+		msg, det = "smartclip.Ring panicked", map[string]interface{}{"panic": sv(pv), "stack": stack}
+	} else {
+		var qs []P
+		for x := box[0] + 0.25; x < box[2]; x += 0.5 {
+			for y := box[1] + 0.25; y < box[3]; y += 0.5 {
+				qs = append(qs, P{x, y})
+			}
+		}
+		in := [][][]P{{ring}}
+		msg, det = c16judge(box, in, o, out, plainClipArea(box, in), qs, 16)
+	}
+	c.Nontrivial(h.Mix(0xf1, idx))
+	if idx%9001 == 5 {
+		c.Sample(map[string]interface{}{"box": box, "ring": ring, "orientation": int(o), "output": sv(out)})
+	}
+	if msg == "" {
+		return
+	}
+	if dump != nil {
+		dump[id] = true
+	}
+	key := ""
+	if c16known[id] {
+		key = "C16/boundary-contact"
+	}
+	c.Fail(key, msg, map[string]interface{}{"box": box, "ring": ring, "orientation": int(o), "output": sv(out), "detail": det, "contact_configuration": true, "fixed_list_case_id": idx})
+}
+
 func c16runRing(box [4]float64, ring []P, o orb.Orientation) (out orb.MultiPolygon, pv interface{}, stack string) {
 	pv, stack = h.Catch(func() {
 		out = smartclip.Ring(boundOf(box[0], box[1], box[2], box[3]), pToRing(ring), o)
@@ -442,8 +501,12 @@ func init() {
 					}
 					var in [][][]P
 					var mp orb.MultiPolygon
+					snapP := 0.0
+					if r.P(1, 3) {
+						snapP = 1 // integer vertices (exact coincidences between rings); the box then sits on half-integers: no contact
+					}
 					for k := 0; k < np; k++ {
-						rings := gen.PolygonWithHoles(r, r.Range(4, 10), float64(k)*5*sc+r.Uniform(-1, 1)*sc, r.Uniform(-1, 1)*sc, 0.8*sc, 2*sc, 0, r.Intn(4))
+						rings := gen.PolygonWithHoles(r, r.Range(4, 10), math.Round(float64(k)*5*sc+r.Uniform(-1, 1)*sc), math.Round(r.Uniform(-1, 1)*sc), 0.8*sc, 2*sc, snapP, r.Intn(4))
 						if rings == nil {
 							return
 						}
@@ -478,6 +541,14 @@ func init() {
 						tx, ty := t[0]+r.Uniform(-0.5, 0.5)*sc, t[1]+r.Uniform(-0.5, 0.5)*sc
 						m := r.Uniform(0.01, 0.3) * sc
 						box = [4]float64{math.Min(x0-m, tx), math.Min(y0-m, ty), math.Max(x1+m, tx), math.Max(y1+m, ty)}
+					}
+					if snapP > 0 {
+						for i := range box {
+							box[i] = math.Floor(box[i]) + 0.5
+						}
+						if box[2] <= box[0] || box[3] <= box[1] {
+							return
+						}
 					}
 					anyCut := false
 					boxInsideSomeOuter := false
@@ -558,6 +629,15 @@ func init() {
 				},
 			},
 			{
+				// a fixed (seed-independent) list of contact configurations with richer rings: simple rings of 5..9
+				// vertices on the integer grid against integer boxes; judged against the committed list like the grid
+				Name: "fixed-list-contact-rings", Count: h.Fixed(150000, 2000000),
+				Run: func(c *h.Ctx, idx uint64, _ *h.Rand) {
+					c16loadKnown()
+					c16fixedCase(c, idx, nil)
+				},
+			},
+			{
 				Name: "grid-triangles", Count: h.Fixed(46656, 46656), Exhaustive: h.Always,
 				Run: func(c *h.Ctx, idx uint64, r *h.Rand) {
 					c16loadKnown()
@@ -587,6 +667,9 @@ func init() {
 				dump := map[uint64]bool{}
 				for seq := idx; seq < 46656+1679616; seq += 16 {
 					gridCase(c, seq, dump)
+				}
+				for k := idx; k < 2000000; k += 16 {
+					c16fixedCase(c, k, dump)
 				}
 				ids := make([]uint64, 0, len(dump))
 				for id := range dump {
